@@ -73,6 +73,12 @@ func (e *endpoint) handleICMP(r *stack.Route, vv buffer.VectorisedView) {
 		if len(v) < header.ICMPv4EchoMinimumSize {
 			return
 		}
+		// An echo header is 8 bytes (type, code, checksum, identifier, sequence
+		// number); a shorter message is not a request and gets no reply.
+		// 完整的echo头部为8字节，不足8字节的报文不予响应
+		if vv.Size() < header.ICMPv4MinimumSize+4 {
+			return
+		}
 		log.Printf("@网络层 icmp: 接受报文:echo")
 		vv.TrimFront(header.ICMPv4MinimumSize)
 		req := echoRequest{r: r.Clone(), v: vv.ToView()}
